@@ -1,16 +1,29 @@
 (* Properties_C12.v - no input crashes, corrupts memory in or hangs the parsers.
    PARTIAL, and said so in MANIFEST.json:
-   - PROVED about the models (all inputs, no bound): the parsers are total Coq
-     functions (structural recursion, or fuel shown below never to run out), so
-     they terminate on every byte string; the lexer cursor of lexer.c stays
-     inside its buffer for every sequence of getc/ungetc calls; every helper
-     model exits with a documented status and prints nothing on standard
-     output when it rejects.
-   - OBSERVED only (the installed tools cannot prove it about C): absence of
-     memory errors and undefined behaviour in the C code - clang ASan+UBSan
-     builds fed with grammar-derived inputs, their mutations and raw bytes
-     (harness/c12.py), compared with the models where one exists. *)
-From Robsd Require Import Safety.LexerDefs Safety.SafetyProofs Step.StepDefs RegressLog.RLSpec Interp.InterpSpec Interp.InterpProofs.
+   - PROVED about the models (all inputs, no bound):
+     * abnormal termination of the configuration reader (robsd-config, and every helper that parses a
+       configuration): the model flags the assert / __builtin_trap / unbounded-recursion sites of conf.c and
+       conf-*.c in ten places; NONE is reached for any environment, text, -v list and standard input -
+       C12_config_no_abort_holds_now.  Nine are dead for every table passing [trap_free]; the tenth
+       (${builddir} needed while ${builddir} is being computed) was live in the shipped code - finding D18,
+       replayed on the real robsd-config built with ASan+UBSan: stack-overflow, findings/D18_builddir_reentry.md,
+       repaired in /repo 35cfab1 - and is dead with the re-entry guard the translator now finds in the source
+       (C12_config_no_abort_if_guarded); C12_config_no_abort_refuted / _partial / C12_builddir_guard are the
+       historical pins of the shipped body;
+     * exit status and standard output of the WHOLE command models, every outcome classified with its cause
+       (robsd-config: C12_config_exit_and_diag, with the diagnostic; robsd-step -R / -W, robsd-regress-log,
+       interpolation: C12_step_read_outcome, C12_step_write_outcome, C12_regress_log_outcome,
+       C12_interpolation_reject_names_line); a rejection prints nothing on standard output;
+     * termination: the parsers are total Coq functions; the fuelled loops never run out of fuel
+       (C12_config_lexer_total, C12_step_rows_fuel_sufficient, and sites 5, 7, 9 of Conf/ConfAbort.v);
+     * the lexer cursor of lexer.c stays inside its buffer (C12_lexer_bounds).
+   - OBSERVED only (the installed tools cannot prove it about C): absence of memory errors and undefined
+     behaviour in the C code - clang ASan+UBSan builds fed with grammar-derived inputs, their mutations and
+     raw bytes (harness/c12.py), compared with the models where one exists; "promptly" = 5 s per execution. *)
+From Robsd Require Import Safety.LexerDefs Safety.SafetyProofs Safety.ExitProofs Step.StepDefs Step.StepSpec RegressLog.RLSpec
+  Interp.InterpSpec Interp.InterpProofs
+  Conf.ConfDefs Conf.ConfSpec Conf.ConfReject Conf.ConfInst Conf.ConfAbort Conf.ConfAbortInst.
+From RobsdGen Require Import Gen_Interp Gen_Conf.
 Local Open Scope Z_scope.
 
 (* lexer.c: for every input length, every content and every sequence of
@@ -30,30 +43,144 @@ Theorem C12_step_rows_fuel_sufficient : forall cols n toks f,
 Proof. exact parse_rows_fuel_sufficient. Qed.
 Print Assumptions C12_step_rows_fuel_sufficient.
 
-(* documented exit statuses; nothing on standard output when rejecting *)
-Theorem C12_step_read_exit : forall file sel template,
-  fst (read_cmd file sel template) = 0%N \/
-  (fst (read_cmd file sel template) = 1%N /\ snd (read_cmd file sel template) = []).
-Proof. exact step_read_exit. Qed.
-Print Assumptions C12_step_read_exit.
+(* the configuration lexer never runs out of fuel either, in any mode, on any bytes *)
+Theorem C12_config_lexer_total : forall T text, lex T text <> LexFuel.
+Proof. exact lex_fuel. Qed.
+Print Assumptions C12_config_lexer_total.
 
-Theorem C12_step_write_exit : forall fault file idarg kvs,
-  fst (write_cmd fault file idarg kvs) = 0%N \/ fst (write_cmd fault file idarg kvs) = 1%N.
-Proof. exact step_write_exit. Qed.
-Print Assumptions C12_step_write_exit.
+(* ------------------------------------------------------------------ abnormal termination: the configuration reader *)
+(* full statement [config_no_abort_statement]: for every environment, mode, text, -v list and standard input
+   robsd-config does not trap.  It holds of the source as it is now: *)
+Theorem C12_config_no_abort_holds_now : config_no_abort_statement.
+Proof.
+  exact (fun E m text vars stdin =>
+    config_no_abort_if_guarded E (tables_of m) text vars stdin (trap_free_gen m)
+      (match m return t_builddir_guard (tables_of m) = true with
+       | ROBSD => eq_refl | ROBSD_CROSS => eq_refl | ROBSD_PORTS => eq_refl | ROBSD_REGRESS => eq_refl | CANVAS => eq_refl end)).
+Qed.
+Print Assumptions C12_config_no_abort_holds_now.
 
-Theorem C12_regress_log_exit : forall fl doprint files,
-  fNEWLINE fl = false ->
-  (fst (main fl doprint files) = 0%N \/ fst (main fl doprint files) = 1%N \/ fst (main fl doprint files) = 2%N) /\
-  (fst (main fl doprint files) <> 0%N -> snd (main fl doprint files) = []).
-Proof. exact regress_log_exit. Qed.
-Print Assumptions C12_regress_log_exit.
+(* HISTORICAL PIN (D18, repaired in /repo 35cfab1): the statement was false for the shipped body of
+   config_default_build_dir.  Conditioned on the translator's switch [t_builddir_guard] being false, which it
+   no longer is, so this says nothing about the present source; should the guard be removed, the switch flips,
+   C12_config_no_abort_holds_now (by [eq_refl] on the switch) no longer checks and the reentry lane of
+   harness/c12.py replays these witnesses on the implementation.  The witnesses: an ACCEPTED configuration,
+   harmless until ${builddir} is referenced; the same trap while parsing; the same in canvas mode. *)
+Theorem C12_config_no_abort_refuted :
+  t_builddir_guard (tables_of ROBSD) = false ->
+  ~ config_no_abort_statement
+  /\ (exists c, config_parse wit_env_all (tables_of ROBSD) wit_reentry_text = Accepted c /\ c_abort c = false)
+  /\ r_abort (robsd_config wit_env_all (tables_of ROBSD) wit_reentry_text [] wit_reentry_stdin) = true
+  /\ (exists c, config_parse wit_env_all (tables_of ROBSD) wit_reentry_parse_text = Rejected c /\ c_abort c = true)
+  /\ r_abort (robsd_config wit_env_all (tables_of CANVAS) wit_reentry_canvas_text [] wit_reentry_canvas_stdin) = true.
+Proof.
+  exact (fun Hf => conj (proj1 (config_no_abort_refuted Hf))
+          (conj (proj1 (builddir_reentry_witness Hf))
+             (conj (proj1 (proj2 (proj2 (builddir_reentry_witness Hf)))) (proj2 (proj2 (proj2 (builddir_reentry_witness Hf))))))).
+Qed.
+Print Assumptions C12_config_no_abort_refuted.
 
-Theorem C12_interpolation_exit : forall limit env content,
-  fst (interp_cmd limit env content) = 0%N \/
-  (fst (interp_cmd limit env content) = 1%N /\ snd (interp_cmd limit env content) = []).
-Proof. exact cmd_exit. Qed.
-Print Assumptions C12_interpolation_exit.
+(* the statement is false for the shipped body and a theorem for the one guarded against re-entry
+   (findings/D18_builddir_reentry.diff); the translator tells which one the source has *)
+Theorem C12_config_no_abort :
+  (t_builddir_guard (tables_of ROBSD) = false /\ ~ config_no_abort_statement)
+  \/ (t_builddir_guard (tables_of ROBSD) = true /\ config_no_abort_statement).
+Proof. exact config_no_abort_dichotomy. Qed.
+Print Assumptions C12_config_no_abort.
+
+(* for any table with the guarded body: every input, for ever *)
+Theorem C12_config_no_abort_if_guarded : forall E T text vars stdin,
+  trap_free T = true -> t_builddir_guard T = true -> r_abort (robsd_config E T text vars stdin) = false.
+Proof. exact config_no_abort_if_guarded. Qed.
+Print Assumptions C12_config_no_abort_if_guarded.
+
+(* for the shipped body (HISTORICAL, still true of both bodies): exact guard [builddir_not_reentered] - a
+   computation of ${builddir} does not trap, i.e. never needs ${builddir} again.  Under it NO input traps the reader: the other nine trap sites of the model (computed
+   default behind ${parallel}, two INVALID-typed static defaults, the three loop fuels, the lexer fuel, a
+   keyword row without parser, a list variable of another type) are dead for every table passing [trap_free] *)
+Theorem C12_config_no_abort_partial : forall E m text vars stdin,
+  builddir_not_reentered E (tables_of m) -> r_abort (robsd_config E (tables_of m) text vars stdin) = false.
+Proof. exact config_no_abort_partial. Qed.
+Print Assumptions C12_config_no_abort_partial.
+
+(* ... for any table whatsoever that passes the computed check (the documented tables pass it too) *)
+Theorem C12_config_traps_only_in_builddir : forall E T text vars stdin,
+  trap_free T = true -> builddir_not_reentered E T -> r_abort (robsd_config E T text vars stdin) = false.
+Proof. exact (fun E T text vars stdin TF BD => no_abort_unless_builddir E T TF BD text vars stdin). Qed.
+Print Assumptions C12_config_traps_only_in_builddir.
+
+Theorem C12_trap_free_tables : forall m, trap_free (tables_of m) = true /\ trap_free (doc_tables m) = true.
+Proof. exact (fun m => conj (trap_free_gen m) (trap_free_doc m)). Qed.
+Print Assumptions C12_trap_free_tables.
+
+(* HISTORICAL PIN for the shipped body: the guard fails on the witness, and it holds whenever robsddir is
+   defined without a '$' (every realistic configuration) *)
+Theorem C12_builddir_guard :
+  (t_builddir_guard (tables_of ROBSD) = false -> ~ builddir_not_reentered wit_env_all (tables_of ROBSD))
+  /\ (forall E T c n s, find_var (c_vars c) kw_robsddir = Some (VStr s) -> nodollar s ->
+                        c_abort (fst (build_dir E T c n)) = c_abort c).
+Proof. exact (conj (fun Hf => proj2 (config_no_abort_refuted Hf)) build_dir_plain). Qed.
+Print Assumptions C12_builddir_guard.
+
+(* ------------------------------------------------------------------ exit status, diagnostic, standard output *)
+(* robsd-config -m mode -C file [-v var=val ...] - as a whole: exit 0 or 1; exit 1 comes with an EMPTY standard
+   output and a diagnostic of one of the four shapes of [cmd_diag] (file:line of the configuration; invalid
+   substitution while parsing; a refused -v; /dev/stdin:line); exit 0 only for an accepted configuration *)
+Theorem C12_config_exit_and_diag : forall E m text vars stdin,
+  let r := robsd_config E (tables_of m) text vars stdin in
+  (r_exit r = 0%N \/ r_exit r = 1%N)
+  /\ (r_exit r = 1%N -> r_stdout r = [] /\ exists d, In d (r_diags r) /\ cmd_diag (tables_of m) d)
+  /\ (r_exit r = 0%N -> exists c, config_parse E (tables_of m) text = Accepted c).
+Proof. exact (fun E m text vars stdin => config_exit_and_diag E (tables_of m) text vars stdin (wf_tokens_gen m)). Qed.
+Print Assumptions C12_config_exit_and_diag.
+
+(* robsd-step -R: every outcome is one of five, each with its cause; only the first prints *)
+Theorem C12_step_read_outcome : forall file sel template,
+  read_outcome file sel template (read_cmd file sel template).
+Proof. exact step_read_outcome. Qed.
+Print Assumptions C12_step_read_outcome.
+
+Theorem C12_step_read_exit_iff : forall file sel template,
+  (fst (read_cmd file sel template) = 0%N <->
+   exists content rows st out, file = Some content /\ parse_file content = Some rows /\ select_row rows sel = Some st
+                               /\ interp_file depth_limit (row_lookup st) template = inl out)
+  /\ (fst (read_cmd file sel template) <> 0%N -> read_cmd file sel template = (1%N, [])).
+Proof. exact step_read_exit_iff. Qed.
+Print Assumptions C12_step_read_exit_iff.
+
+(* robsd-step -W: exit 1 leaves the file as it was (or emptied when the final flush fails, D3);
+   exit 0 replaces a file that parsed by a well-formed serialisation *)
+Theorem C12_step_write_outcome : forall fault file idarg kvs,
+  (fst (write_cmd fault file idarg kvs) = 1%N /\ snd (write_cmd fault file idarg kvs) = file) \/
+  (fault = true /\ fst (write_cmd fault file idarg kvs) = 1%N /\ snd (write_cmd fault file idarg kvs) = Some []) \/
+  (fault = false /\ fst (write_cmd fault file idarg kvs) = 0%N /\ exists content rows rs b,
+      file = Some content /\ parse_file content = Some rows /\
+      serialize_rows (sort_rows rs) = Some b /\ snd (write_cmd fault file idarg kvs) = Some (header ++ b)).
+Proof. exact step_write_outcome. Qed.
+Print Assumptions C12_step_write_outcome.
+
+(* robsd-regress-log, any flags: exit 2 exactly when a file is unreadable; output only with exit 0 (and -p) *)
+Theorem C12_regress_log_outcome : forall fl doprint files,
+  (fst (main fl doprint files) = 2%N <-> exists f, In f files /\ f = None)
+  /\ (fst (main fl doprint files) = 0%N \/ fst (main fl doprint files) = 1%N \/ fst (main fl doprint files) = 2%N)
+  /\ (fst (main fl doprint files) <> 0%N -> snd (main fl doprint files) = [])
+  /\ (doprint = false -> snd (main fl doprint files) = []).
+Proof. exact regress_log_outcome. Qed.
+Print Assumptions C12_regress_log_outcome.
+
+(* interpolation (robsd-config -, robsd-step -R templates): a rejection exits 1 with nothing printed and is
+   caused by the FIRST line that does not expand - the line the diagnostic names; exit 0 or 1 otherwise *)
+Theorem C12_interpolation_reject_names_line : forall limit env content,
+  (forall k e, interp_file limit env content = inr (k, e) ->
+     interp_cmd limit env content = (1%N, []) /\
+     exists i l, nth_error (clines content) i = Some l /\ k = (i + 1)%nat /\
+                 interp (pred limit) false env l = IErr e /\
+                 forall j l', (j < i)%nat -> nth_error (clines content) j = Some l' ->
+                              is_ok (interp (pred limit) false env l') = true) /\
+  (fst (interp_cmd limit env content) = 0%N \/
+   (fst (interp_cmd limit env content) = 1%N /\ snd (interp_cmd limit env content) = [])).
+Proof. exact fail_closed. Qed.
+Print Assumptions C12_interpolation_reject_names_line.
 
 (* non-vacuity: a cursor walk with ungetc at offset 0 and getc past the end *)
 Example C12_example :
